@@ -304,9 +304,10 @@ Theorem C08_isolation_login_grants : forall slack raws ops c name ar ut us wd l,
 Proof. exact login_grants_after_history. Qed.
 Print Assumptions C08_isolation_login_grants.
 
-(* what the owner's own list becomes, in place or not *)
+(* what the owner's own list becomes, in place or not: remove deletes EVERY
+   occurrence (since b21f80e), addnew appends unless present *)
 Theorem C08_isolation_owner_view : forall slack h v s, wf h s ->
-  view (fst (go_remove h v s)) (snd (go_remove h v s)) = remove_first v (view h s) /\
+  view (fst (go_remove h v s)) (snd (go_remove h v s)) = filter (neqb v) (view h s) /\
   view (fst (go_addnew slack h v s)) (snd (go_addnew slack h v s)) =
   (if has v (view h s) then view h s else view h s ++ [v])%list.
 Proof. exact owner_view. Qed.
